@@ -169,6 +169,23 @@ Theorem wfb_spec : forall (x : coo Z), wfb x = true ->
 Proof. exact wfb_spec_proof. Qed.
 Print Assumptions wfb_spec.
 
+(* canonical form of a reference result (verified merge sort, then pruning) and the comparison the
+   judge makes: equal raw coords/data of the canonical forms => equal dense meaning everywhere *)
+Theorem canon_den : forall (x : coo Z) ix, NoDup (map fst (entries x)) -> den (canon x) ix = den x ix.
+Proof. exact canon_den_proof. Qed.
+Print Assumptions canon_den.
+
+Theorem wfsb_spec : forall (x : coo Z), wfsb x = true ->
+  shape_ok (c_shape x) /\ Forall (in_range (c_shape x)) (c_coords x) /\ NoDup (map fst (entries x)).
+Proof. exact wfsb_spec_proof. Qed.
+Print Assumptions wfsb_spec.
+
+Theorem canon_eq_sound : forall (a b : coo Z),
+  wfsb a = true -> wfsb b = true -> c_fill a = c_fill b ->
+  entries (canon a) = entries (canon b) -> forall ix, den a ix = den b ix.
+Proof. exact canon_eq_sound_proof. Qed.
+Print Assumptions canon_eq_sound.
+
 (* ------------------------------------------------------------------ dense-allocation sites of the source
    Full statement:  forallb sanctioned dense_sites = true.
    It is FALSE of the source as it stands (findings G1: GCXS reductions recompress along all kept axes,
